@@ -309,6 +309,22 @@ theorem projects_failNext (s : Sys F) (cid : Nat) : Projects s (.failNext cid) :
 theorem projects_failBind (s : Sys F) (cid : Nat) : Projects s (.failBind cid) :=
   projects_frame s _ rfl (fun h => h) rfl rfl rfl
 
+/-- A verdict stamp rewrites four fields of one link that the registration machine does not see. -/
+theorem stamp_flags_cids (ls : List (FLink F)) (idx : Nat) (weak ld ccb : Bool) (cct : Nat) :
+    flags (stampLink ls idx weak ld ccb cct) = flags ls ∧ cids (stampLink ls idx weak ld ccb cct) = cids ls := by
+  unfold flags cids
+  constructor <;>
+  · apply List.ext_getElem?
+    intro j
+    simp only [List.getElem?_map, Uplink.stampLink_getElem?]
+    cases ls[j]? with
+    | none => rfl
+    | some l => by_cases h : j = idx <;> simp [h]
+
+theorem projects_stamp (s : Sys F) (idx : Nat) (weak ld ccb : Bool) (cct : Nat) :
+    Projects s (.stamp idx weak ld ccb cct) :=
+  projects_frame s _ rfl (fun h => h) rfl (stamp_flags_cids _ _ _ _ _ _).1 (stamp_flags_cids _ _ _ _ _ _).2
+
 /-- **Client event**: `reg` is untouched; a link's flag either stays or is cleared (tear-down after a
 failed send), which is what the `drop` events do. -/
 theorem projects_client (s : Sys F) (now : Nat) (pkt : Bytes) : Projects s (.client now pkt) := by
@@ -878,6 +894,7 @@ theorem projects (s : Sys F) (e : Ev) : Projects s e := by
   | crit d => exact projects_crit s d
   | failNext cid => exact projects_failNext s cid
   | failBind cid => exact projects_failBind s cid
+  | stamp idx weak ld ccb cct => exact projects_stamp s idx weak ld ccb cct
 
 /-! ## 7. Runs of the shell, and the ghost observer along them -/
 
@@ -2025,6 +2042,18 @@ theorem att_step {i cid D : Nat} {s : Sys F} (h : Att i cid D s) (hok : RegOk s.
     rintro (h1 | h1)
     · exact hc h1.symm
     · exact this h1
+  | stamp idx weak ld ccb cct =>
+    refine ⟨h.keep h.pending rfl h.nofail h.nobind (fun l hl => ?_), fun _ he => by cases he⟩
+    have hg : (step s (.stamp idx weak ld ccb cct)).1.links[i]? =
+        some (if i = idx then { l with weak := weak, lossDegraded := ld, ccBackingOff := ccb, ccTarget := cct }
+          else l) := by
+      show (stampLink s.links idx weak ld ccb cct)[i]? = _
+      rw [Uplink.stampLink_getElem?, hl]; rfl
+    refine ⟨_, hg, ?_, fun t hf => ?_⟩
+    · split <;> rfl
+    · split
+      · exact FreshAt.of_rf (l := l) (show rf _ = rf l from rfl) hf
+      · exact hf
 
 /-- **Run form.**  Start observing in any reachable state in which uplink `i` is pending with deadline
 `D` (e.g. right after the first REG1 of the attempt at `t0`: `D = t0 + 4000`).  Along every
